@@ -176,6 +176,11 @@ def cases(tier, seed):
     for N, R, orig in [([2, 2], [1, 2, 1], [4]), ([2, 2, 2], [1, 2, 2, 1], [4, 2]), ([2, 2, 2], [1, 2, 3, 1], [2, 4]), ([2, 2, 2], [1, 2, 2, 1], [8]),
                        ([2, 2, 2, 2], [1, 2, 2, 2, 1], [4, 4]), ([2, 2, 2], [1, 2, 2, 1], [2, 2, 2]), ([3, 3, 2], [1, 2, 2, 1], [9, 2])]:
         cs.append({'scen': 'tt_qtt_to_tens', 's': {'N': N, 'R': R, 'orig': orig}, 'opts': Z})
+    # operators of order 4: permutations whose bubble-sort passes swap at positions that are not adjacent to the previous swap
+    for M, N, R in [([2, 1, 1, 2], [1, 2, 2, 1], [1, 2, 2, 2, 1])]:
+        for dims in ([0, 1, 3, 2], [0, 3, 1, 2], [3, 0, 1, 2], [1, 0, 3, 2], [1, 3, 0, 2], [3, 1, 0, 2]) if th else ([0, 1, 3, 2], [3, 0, 1, 2], [1, 0, 3, 2]):
+            s = {'N': N, 'M': M, 'R': R, 'patterns': pats_for(N, R, rng, M=M), 'dims': list(dims), 'sym_cores': [1], 'eps': 'default'}
+            cs.append({'scen': 'tt_permute', 's': s})
     # the same with a bond matrix that is not symmetric (cyclic permutation with distinct magnitudes): a transposed absorption is visible
     cyc = [[[0, 0, 0], [0, 1, 1], [0, 2, 2]], [[0, 0, 1], [1, 0, 2], [2, 0, 0]], [[0, 0, 0], [1, 1, 0], [2, 2, 0]]]
     for t in ([9], [3, 3]):
